@@ -459,7 +459,7 @@ run_flow = run
 
 
 
-def l2_shape(run, cf):
+def l2_shape(run, cf, R="C16.L2"):
     """the original shape-based form of L2 (kept as fallback when the body is not loop-free)"""
     prog = run.prog
     ex = Expr(prog, cf)
@@ -471,9 +471,9 @@ def l2_shape(run, cf):
         if a[0] == "const":
             legend_const = a[2]
     if legend_const == "# Legend:":
-        run.ok("C16.L2", "legend starts at input.find(\"# Legend:\")", where(finds[0]))
+        run.ok(R, "legend starts at input.find(\"# Legend:\")", where(finds[0]))
     else:
-        run.bad("C16.L2", "legend-marker", where(b), "the legend marker searched for is %r" % (legend_const,))
+        run.bad(R, "legend-marker", where(b), "the legend marker searched for is %r" % (legend_const,))
     is_find = lambda z: z[0] == "call" and z[1].endswith("str::<impl str>::find")
     sb_calls = [(bid, t) for bid, t in prog.calls(cf) if re.search(r"StringBuffer as core::convert::From<&str>>::from$", Program.callee_name(t))]
     parse_calls = [(bid, t) for bid, t in prog.calls(cf) if Program.callee_name(t).endswith("parser::parse_css_legend")]
@@ -504,35 +504,35 @@ def l2_shape(run, cf):
             if rng[0] == "agg" and str(rng[1]).endswith("RangeTo") and mentions(rng, is_find):
                 cut.append((bid, t))
     if len(cut) == 1 and len(whole) == 1 and len(sb_calls) == 2:
-        run.ok("C16.L2", "drawing input is input[..legend_start] when the legend parses, the whole input otherwise", where(cut[0][1]))
+        run.ok(R, "drawing input is input[..legend_start] when the legend parses, the whole input otherwise", where(cut[0][1]))
     else:
-        run.bad("C16.L2", "legend-cut", where(b), "expected one StringBuffer::from(&input[..loc]) and one StringBuffer::from(input); found %d cut / %d whole / %d total" % (
+        run.bad(R, "legend-cut", where(b), "expected one StringBuffer::from(&input[..loc]) and one StringBuffer::from(input); found %d cut / %d whole / %d total" % (
             len(cut), len(whole), len(sb_calls)))
     # the cut branch is taken exactly when parse_css_legend returned Ok, and its entries are added
     if len(parse_calls) == 1 and len(add_calls) == 1:
         pa = strip(closure_parse[2]) if closure_parse else strip(ex.operand(parse_calls[0][1]["args"][0]))
         if pa[0] == "call" and "Index" in pa[1] and str(strip(pa[2][1])[1]).endswith("RangeFrom") and mentions(pa, is_find):
-            run.ok("C16.L2", "legend parser receives input[legend_start..]", where(parse_calls[0][1]))
+            run.ok(R, "legend parser receives input[legend_start..]", where(parse_calls[0][1]))
         else:
-            run.bad("C16.L2", "legend-parse-input", where(parse_calls[0][1]), "parse_css_legend receives %s" % expr_str(pa)[:100])
+            run.bad(R, "legend-parse-input", where(parse_calls[0][1]), "parse_css_legend receives %s" % expr_str(pa)[:100])
         aa = ex.operand(add_calls[0][1]["args"][1])
         if mentions_deep(prog, aa, lambda z: z[0] == "call" and z[1].endswith("parser::parse_css_legend")):
-            run.ok("C16.L2", "parsed entries become the css styles", where(add_calls[0][1]))
+            run.ok(R, "parsed entries become the css styles", where(add_calls[0][1]))
         else:
-            run.bad("C16.L2", "legend-entries-dropped", where(add_calls[0][1]), "add_css_styles does not receive the parse result")
+            run.bad(R, "legend-entries-dropped", where(add_calls[0][1]), "add_css_styles does not receive the parse result")
         if cut:
             gs = guards(prog, cf, cut[0][0])
             on_ok = any(mentions_deep(prog, c, lambda z: z[0] == "call" and z[1].endswith("parser::parse_css_legend")) for c, tk, sw in gs)
             if on_ok:
-                run.ok("C16.L2", "the cut is control-dependent on the legend parse result", where(cut[0][1]))
+                run.ok(R, "the cut is control-dependent on the legend parse result", where(cut[0][1]))
             else:
-                run.bad("C16.L2", "legend-cut-unconditional", where(cut[0][1]), "the input is cut at `# Legend:` without regard to the parse result")
+                run.bad(R, "legend-cut-unconditional", where(cut[0][1]), "the input is cut at `# Legend:` without regard to the parse result")
     else:
-        run.bad("C16.L2", "legend-parse-shape", where(b), "expected one parse_css_legend and one add_css_styles call (found %d / %d)" % (len(parse_calls), len(add_calls)))
+        run.bad(R, "legend-parse-shape", where(b), "expected one parse_css_legend and one add_css_styles call (found %d / %d)" % (len(parse_calls), len(add_calls)))
 
 
 
-def l2_paths(run, cf):
+def l2_paths(run, cf, R="C16.L2"):
     """L2 decided on the feasible paths of From<&str>: (1) no `# Legend:` -> the whole input is drawn; (2) marker found and
     the legend parses -> input[..marker] is drawn and the parsed entries are added; (3) marker found but the legend does
     not parse -> the whole input is drawn and nothing is added.  Returns True if it reached a verdict."""
@@ -624,12 +624,12 @@ def l2_paths(run, cf):
     if n_legend == 0:
         return False   # the legend path is not visible at this level (e.g. inside a combinator closure): shape rule decides
     if problems:
-        run.bad("C16.L2", "legend-cut", where(b), "; ".join(sorted(set(problems)))[:400])
+        run.bad(R, "legend-cut", where(b), "; ".join(sorted(set(problems)))[:400])
     else:
-        run.ok("C16.L2", "legend starts at input.find(\"# Legend:\")", where(b))
-        run.ok("C16.L2", "drawing input is input[..legend_start] when the legend parses, the whole input otherwise (3 feasible paths)", where(b))
-        run.ok("C16.L2", "legend parser receives input[legend_start..]; parsed entries become the css styles", where(b))
-        run.ok("C16.L2", "the cut is control-dependent on the legend parse result", where(b))
+        run.ok(R, "legend starts at input.find(\"# Legend:\")", where(b))
+        run.ok(R, "drawing input is input[..legend_start] when the legend parses, the whole input otherwise (3 feasible paths)", where(b))
+        run.ok(R, "legend parser receives input[legend_start..]; parsed entries become the css styles", where(b))
+        run.ok(R, "the cut is control-dependent on the legend parse result", where(b))
     return True
 
 def thorough(run):
